@@ -32,7 +32,7 @@ type disposable interface {
 func genDispose(t *rapid.T) Round {
 	r := Round{Comp: "dispose", P: map[string]int{}}
 	r.Closers = rapid.SampledFrom([]int{2, 2, 3, 3, 4, 5, 6, 8}).Draw(t, "closers")
-	r.P["variant"] = rapid.IntRange(0, 2).Draw(t, "variant")
+	r.P["variant"] = rapid.IntRange(0, 3).Draw(t, "variant") // 3: dispose.ResourceManager.DisposeAll
 	r.P["handlers"] = rapid.IntRange(1, 4).Draw(t, "handlers")
 	r.P["errs"] = rapid.IntRange(0, 1).Draw(t, "errs")
 	r.P["slow"] = rapid.IntRange(0, 2).Draw(t, "slow")
@@ -49,7 +49,103 @@ func genDispose(t *rapid.T) Round {
 	return r
 }
 
+// cDisposable is a counting dispose.Disposable.
+type cDisposable struct {
+	c    counter
+	slow int
+}
+
+func (d *cDisposable) Dispose() error {
+	d.c.hit()
+	if d.slow > 0 {
+		runtime.Gosched()
+	}
+	return nil
+}
+
+// runResourceManager: DisposeAll / DisposeWithTimeout x N with Register / Unregister racing.
+func runResourceManager(r Round) *outcome {
+	o := &outcome{}
+	base := snapshot(disposePrefixes)
+	rm := dispose.NewResourceManager()
+	nh := r.p("handlers")
+	pre := make([]*cDisposable, nh)
+	for i := range pre {
+		pre[i] = &cDisposable{slow: r.p("slow")}
+		rm.Register(fmt.Sprintf("r%d", i), pre[i])
+	}
+	rc := newRace("dispose")
+	lates := make([]*cDisposable, r.p("adders"))
+	regOK := make([]bool, len(lates))
+	for i := range lates {
+		i := i
+		lates[i] = &cDisposable{}
+		rc.spin(kindPath, "Register", func() { regOK[i] = rm.Register(fmt.Sprintf("late%d", i), lates[i]) == nil })
+	}
+	unregistered := false
+	if r.has("parent-cancel") { // reused draw: an Unregister of r0 racing the disposal
+		unregistered = true
+		rc.spin(kindPath, "Unregister", func() { rm.Unregister("r0") })
+	}
+	if r.has("is-closed-poll") {
+		rc.spin(kindOther, "List", func() {
+			for i := 0; i < 20; i++ {
+				rm.ListResources()
+				rm.GetResourceCount()
+			}
+		})
+	}
+	for i := 0; i < r.Closers; i++ {
+		i := i
+		rc.spin(kindCloser, "DisposeAll", func() {
+			if i%3 == 2 {
+				rm.DisposeWithTimeout(5 * time.Second)
+			} else {
+				rm.DisposeAll()
+			}
+		})
+	}
+	rc.release()
+	if ok, dump := rc.waitBlocked(10*time.Second, 40*time.Second); !ok {
+		o.failf("C16/dispose/resource-manager/dispose-all-did-not-return", "DisposeAll did not return within 10s; goroutines:\n%s", dump)
+		return o
+	}
+	rc.measure(o)
+	// a resource registered during the disposal is picked up by the next DisposeAll
+	rc2 := newRace("dispose")
+	rc2.guard("post-close", func() { rm.DisposeAll(); rm.DisposeAll() })
+	o.fails = append(o.fails, rc2.fails...)
+	leaks := settle(disposePrefixes, base, 2*time.Second)
+	for j, p := range pre {
+		n := p.c.get()
+		if j == 0 && unregistered {
+			if n > 1 {
+				o.failf("C16/dispose/resource-manager/resource-disposed-"+times(n), "resource r0 (unregistered during DisposeAll) disposed %d times", n)
+			}
+			continue
+		}
+		if n != 1 {
+			o.failf("C16/dispose/resource-manager/resource-disposed-"+times(n), "registered resource r%d disposed %d times after %d concurrent DisposeAll calls", j, n, r.Closers)
+		}
+	}
+	for j, l := range lates {
+		if n := l.c.get(); regOK[j] && n != 1 {
+			o.failf("C16/dispose/resource-manager/late-resource-disposed-"+times(n), "resource registered during DisposeAll disposed %d times after a following DisposeAll", n)
+		}
+	}
+	if n := rm.GetResourceCount(); n != 0 {
+		o.failf("C16/dispose/resource-manager/resources-left", "%d resources still registered after DisposeAll", n)
+	}
+	if leaks != nil {
+		o.failf("C16/dispose/goroutine-leak/"+leakKeyPart(leaks[0]), "goroutines remain after DisposeAll: %s", leakMsg(leaks))
+	}
+	return o
+}
+
 func runDispose(r Round) *outcome {
+	if r.p("variant") == 3 {
+		return runResourceManager(r)
+	}
 	o := &outcome{}
 	base := snapshot(disposePrefixes)
 	parent, cancel := context.WithCancel(context.Background())
